@@ -38,7 +38,28 @@ def run(ctx, canary=False):
         scs.append({"mech": name, "params": p, "attrs": ["a", "b", "c"], "sizes": [2, 3, 2],
                     "records": [[0, rng.randrange(3), rng.randrange(2)] for _ in range(6)], "seed": rng.randrange(10 ** 6)})
     scs += MC.threshold_ladders(rng)
-    jobs, results = MC.run_all(scs, None if thorough else 5, rng)
+    # signal-dominated regime: hundreds of records in few cells and little noise, so that data-dependent tests that are
+    # saturated on tiny datasets ("the model moved less than the noise") can flip between D and D plus many records
+    for name in ("AIM", "MWEM", "MST", "AdaGrid"):
+        p = {"epsilon": 10.0, "delta": 1e-3}
+        if name == "AIM":
+            p["rounds"] = 6
+        if name == "MWEM":
+            p.update(noise="gaussian", bounded=False, rounds=3, alpha=0.9)
+        if name == "AdaGrid":
+            p.update(targets=[], split_strategy=None, threshold=5.0)
+        recs = [[0, 0, 0]] * 150 + [[1, 1, 1]] * 120 + [[rng.randrange(2), rng.randrange(3), rng.randrange(2)] for _ in range(30)]
+        scs.append({"mech": name, "params": p, "attrs": ["a", "b", "c"], "sizes": [2, 3, 2], "records": recs, "seed": rng.randrange(10 ** 6),
+                    "grow": ([0, 1, 1], 1500), "forced_neighbours": [("add(0, 1, 1)", recs + [[0, 1, 1]]), ("remove#0", recs[1:])], "only_forced_nb": True})
+    # wide tables (11 binary attributes: 55 candidate pairs), where implementations are tempted to prune candidates
+    wide = [chr(ord("a") + i) for i in range(11)]
+    for name in ("AdaGrid", "MST"):
+        p = {"epsilon": 2.0, "delta": 1e-6}
+        if name == "AdaGrid":
+            p.update(targets=[], split_strategy=None, threshold=5.0)
+        scs.append({"mech": name, "params": p, "attrs": wide, "sizes": [2] * 11, "records": [[rng.randrange(2) for _ in wide] for _ in range(10)],
+                    "seed": rng.randrange(10 ** 6), "wide": True})
+    jobs, results = MC.run_all(scs, None if thorough else 5, rng, far=True)
     traces = []
     for (sc, nb), res in zip(jobs, results):
         info = {"mechanism": sc["mech"], "params": sc["params"], "attrs": sc["attrs"], "sizes": sc["sizes"], "records": sc["records"], "seed": sc["seed"]}
@@ -48,6 +69,8 @@ def run(ctx, canary=False):
             continue
         for pr in res["pairs"]:
             pinfo = dict(info, neighbour=pr["label"], differences=pr["c06_diffs"], replay_error=pr["err2"])
+            if pr.get("on_path"):
+                pinfo.update(records=pr["base_records"], neighbour_records=pr["neighbour_records"], observations_recorded_on=sc["records"])
             ctx.case(json.dumps([info, pr["label"]], sort_keys=True), nontrivial=True)
             if pr["err2"] and not pr["err2"].startswith("diverged"):
                 ctx.violation("%s on neighbour %s %s" % (sc["mech"], pr["label"], pr["err2"]), pinfo, {"kind": "crash", "mechanism": sc["mech"]})
